@@ -5,7 +5,7 @@
 // step of its own).
 //
 // header: {"H":["h1",..],"ctor":"h1"}
-// first step: Setup(mode, rkind)   mode: fn|fnsync|retfut|async|asyncsync|setval|setexc|late|shl
+// first step: Setup(mode, rkind)   mode: fn|fnsync|retfut|async|asyncsync|setval|setexc|late|init|shl
 //                                  rkind: val|exc|drop|dtor|final|none
 //   builds the world: the constructing thread runs its constructor up to the first scheduling point
 // other step labels: Action(thread[,thread])   threads: "r" (resolver), the names in H
@@ -18,6 +18,9 @@
 //   heap  operator new minus operator delete calls made on the scenario's threads
 //         (= live shared state + live coroutine frames)
 //   cref  the frame of the thread's coroutine (it holds a handle) exists
+//   one   every live handle refers to the state the probe was bound to when the first handle appeared
+//         (get_promise() on an initialised object must keep the state: the use count, the chain and the
+//         stored result in the projection are always those of that first state)
 //
 // How the reference count is observed without disturbing it: plain build -- a std::weak_ptr<void>
 // made from the protected shared_ptr member (weak references do not keep the object alive but keep
@@ -290,6 +293,11 @@ static void construct(World &w, TS &me) {
         *s.get() << [pw]() -> Base {
             return Base([pw](cocls::promise<Counted> p) { pw->p.emplace(std::move(p)); });
         };
+    } else if (w.mode == "init") {
+        // default constructed, initialised explicitly; the second call must do nothing
+        new (s.buf) SF();
+        s.get()->init_if_needed();
+        s.get()->init_if_needed();
     } else {   // late: default constructed
         new (s.buf) SF();
     }
@@ -358,8 +366,10 @@ static void handle_body(World &w, TS &me) {
             if (sf.ready()) { rec.tag = "bad"; rec.payload = "ready-on-null"; }
             else observe(rec, [&]() -> Counted & { return sf.value(); });
         } else if (cmd == "late") {
+            // get_promise(): on the default constructed object (LateInit) or through a handle of the fresh,
+            // already shared state (GetPromise)
             me.curop = "charge";
-            SF &sf = *me.hs[0].get();
+            SF &sf = me.first() ? *me.first() : *me.hs[0].get();
             tl_ctor = true;
             w.p.emplace(sf.get_promise());
             tl_ctor = false;
@@ -542,6 +552,10 @@ static J project(World &w) {
         m.set("tag", "-");
         m.set("payload", "-");
     }
+    bool one = true;
+    for (auto &kv : w.ts) for (auto &hs : kv.second->hs)
+        if (hs.used && (hs.get()->*SProbe::ptr_mp()) && static_cast<Base *>((hs.get()->*SProbe::ptr_mp()).get()) != w.base) one = false;
+    m.set("one", one);
     J pend = J::map(), nh = J::map(), cref = J::map(), resumes = J::map(), seen = J::map();
     long heap = heap_balance(w);
     pend.set("r", pend_of(w, "r"));
@@ -576,7 +590,7 @@ static const char *command_of(const std::string &action) {
     if (action == "BeginCo") return "co";
     if (action == "BeginCb") return "cb";
     if (action == "NullPoll") return "nullpoll";
-    if (action == "LateInit") return "late";
+    if (action == "LateInit" || action == "GetPromise") return "late";
     return nullptr;
 }
 
